@@ -1,5 +1,5 @@
 (* C12 — Sessions leave no residue and do not interfere with one another.
-   Only property theorems; proofs in TSS.Orch.SessionFacts.  `reachable mm w`: w is reached from the empty Scheme by
+   Only property theorems; proofs in TSS.Orch.SessionFacts.  `reachable w`: w is reached from the empty Scheme by
    ANY finite history of session starts (KeyGen / Sign with any plan: which synchronisation succeeds, fails, waits or
    completes late; backend result or blocking; usable share data or not; any participant set), releases, context
    cancellations and incoming messages, each session identifier being used by one start only. *)
@@ -8,25 +8,25 @@ Require Import TSS.Base.Base TSS.Orch.Membership TSS.Orch.Sessions TSS.Orch.Sess
 (* after KeyGen or Sign returned - successfully or not - no handler table mentions the session any more, and this
    stays so whatever happens later (including a synchroniser continuation that fires after the call returned) *)
 Theorem C12_no_residue :
-  forall mm w sid s, reachable mm w -> sget (sessions w) sid = Some s -> s_api s <> None ->
+  forall w sid s, reachable w -> sget (sessions w) sid = Some s -> s_api s <> None ->
   forall k, tget (syncs w) k <> Some sid /\ tget (rbcs w) k <> Some sid /\ tget (cls w) k <> Some sid.
 Proof. exact no_residue. Qed.
 Print Assumptions C12_no_residue.
 
 (* every registered handler belongs to a session whose call is still running, under one of that session's own topics *)
 Theorem C12_tables_owned :
-  forall mm w, reachable mm w -> WInv w.
+  forall w, reachable w -> WInv w.
 Proof. exact reachable_inv. Qed.
 Print Assumptions C12_tables_owned.
 
 (* a later Sign on the same topic is admitted as soon as no Sign on that topic is running; likewise KeyGen *)
 Theorem C12_sign_readmitted :
-  forall mm w p, reachable mm w -> p_sign p = true ->
+  forall w p, reachable w -> p_sign p = true ->
   (forall j s, sget (sessions w) j = Some s -> s_api s = None -> p_sign (s_plan s) = true -> p_topic (s_plan s) <> p_topic p) ->
   tget (syncs w) (KT (p_topic p)) = None.
 Proof. exact sign_readmitted. Qed.
 Theorem C12_keygen_readmitted :
-  forall mm w, reachable mm w ->
+  forall w, reachable w ->
   (forall j s, sget (sessions w) j = Some s -> s_api s = None -> p_sign (s_plan s) = true) -> dkg w = false.
 Proof. exact keygen_readmitted. Qed.
 Print Assumptions C12_sign_readmitted.
@@ -48,7 +48,7 @@ Print Assumptions C12_same_topic_refused.
 (* traffic reaches a protocol instance only on the topic of a session that is still running, and only from one of that
    session's participants (so late, foreign and other sessions' traffic reaches nothing); it never changes session state *)
 Theorem C12_traffic_filtered :
-  forall mm w k sy f p2p sid fp b, reachable mm w ->
+  forall mm w k sy f p2p sid fp b, reachable w ->
   In (ROnMsg sid fp b) (o_reached (snd (inject mm w k sy f p2p))) ->
   exists s, sget (sessions w) sid = Some s /\ s_api s = None /\ k = k1 (s_plan s) /\
             In f (p_members (s_plan s)) /\ fp = pid_of mm f /\ b = false.
@@ -61,7 +61,7 @@ Print Assumptions C12_traffic_filtered.
 (* non-vacuity: a reachable history with a timed-out Sign, a refused concurrent Sign, a re-admitted successful Sign,
    a refused KeyGen and a late continuation, ending with empty tables *)
 Theorem C12_example :
-  reachable mm3 (fst (runh mm3 world0 hist1)) /\
+  reachable (fst (runh mm3 world0 hist1)) /\
   let '(w, os) := runh mm3 world0 hist1 in
   map (api_of w) [0; 1; 2; 3; 4] = [Some RCtx; Some RRefused; Some ROk; Some RErr; Some RCtx] /\
   syncs w = [] /\ rbcs w = [] /\ cls w = [] /\ dkg w = false /\
